@@ -274,7 +274,10 @@ def _run(pid, repo, out_dir, timeout, spec, ps, res, cmds, t0):
     failed = {}
     fname = "tie_%s.v" % pid
     out_text = ""
-    for _ in range(len(segs) + len(fns) + 2):
+    base = "tie_%s" % pid
+    for attempt in range(len(segs) + len(fns) + 2):
+        # the full instantiation is tie_<pid>.v; re-runs without the failed parts are tie_<pid>_retry<k>.v
+        fname = base + ".v" if attempt == 0 else "%s_retry%d.v" % (base, attempt)
         asm, included = _assemble(head, segs, tr["prelude"], fns, dead_fns, dead_blocks)
         with open(os.path.join(out_dir, fname), "w") as fh:
             fh.write(asm.text())
